@@ -72,6 +72,7 @@ TABLES: List[Tuple[Any, ...]] = [
     ("two models, each with chains A and B", [(1, "A"), (1, "B"), (2, "A"), (2, "B")]),
     ("model 1 = chain A, model 2 = chain B", [(1, "A"), (2, "B")]),
     ("three models of one atom each, same chain", [(1, "A"), (2, "A"), (3, "A")]),
+    ("models numbered 999 and 9999 (the full width of the MODEL serial)", [(999, "A"), (9999, "A"), (9999, "B")]),
     # rows whose (model, chain) sequence is not sorted: the order of the rows is data, the writer has to keep it
     ("chain B listed before chain A", [(1, "B"), (1, "B"), (1, "A"), (1, "A")]),
     ("hetero atoms of chain A listed after chain B", [(1, "A"), (1, "A"), (1, "B"), (1, "A")]),
